@@ -153,9 +153,13 @@ ADAPTIVE_TARGET_N2 = 0.75
 def schedule_kwargs(name, N):
     """sample() keyword arguments of a named schedule for N particles."""
     kw = dict(SCHEDULES[name])
-    if kw.get("adaptive") and N == 2:
+    if kw.get("adaptive") and N == 2 and name == "adaptive_half":
         # with two particles ESS/N >= 1/2 always: the default target 0.5 would make
-        # every adaptive run a single full step
+        # every adaptive run a single full step.  Only for the schedule whose floor
+        # of 1/2 bounds the run at two iterations: with the step-cap / unbounded
+        # schedules the non-degenerate target multiplies the bisection paths of three
+        # iterations (one such configuration ran past four minutes alone) -- those keep
+        # the default target and rely on N = 3 in the thorough tier for non-degeneracy
         kw.setdefault("target_efficiency", ADAPTIVE_TARGET_N2)
     return kw
 
